@@ -174,6 +174,22 @@ Section AreaConfig.
       Ok (Some (if is_dist name then (absf OP (fst v), absf OP (snd v)) else v))
     end.
 
+  (* the calls of _extrapolate_information as seen from one fixed None-pattern of its arguments (the generated
+     specialisations in Gen/GenC13.v call these): the argument is known not to be None, so is the result *)
+  Definition conv1 (name : pname) (var : param) (units : utok) (center : option P2) : res P2 :=
+    do r <- convert_units (Some var) name units center; match r with Some v => Ok v | None => Err end.
+  Definition conv_radius_c var units c := conv1 Nradius var units (Some c).
+  Definition conv_radius_n var units := conv1 Nradius var units None.
+  Definition conv_resolution_c var units c := conv1 Nresolution var units (Some c).
+  Definition conv_resolution_n var units := conv1 Nresolution var units None.
+  Definition validate2s (given found : P2) : res P2 := validate2 (Some given) found.
+  Definition validate4s (given found : P4) : res P4 := validate4 (Some given) found.
+  Definition validate_shapes (given found : Z * Z) : res (Z * Z) := validate_shape (Some given) found.
+  (* _round_shape(shape, radius=radius, resolution=resolution); the shape handed over is 2 * radius / resolution, computed
+     with Python floats: a zero resolution is a ZeroDivisionError before the call *)
+  Definition round_shape_kw (shape radius resolution : P2) : res (Z * Z) :=
+    if eqb OP (snd resolution) zeroT || eqb OP (fst resolution) zeroT then Err else round_shape shape.
+
   (* ---------------------------------------------------------------- _extrapolate_information *)
   Definition extrapolate (area_extent : option P4) (shape : option (Z * Z)) (center : option P2)
              (radius resolution : option param) (upper_left_extent : option P2) (units : utok)
@@ -205,8 +221,7 @@ Section AreaConfig.
     do (shape, radius) <-
       (match radius, resolution with
        | Some r, Some d =>                                                          (* 2-A *)
-         if eqb OP (snd d) zeroT || eqb OP (fst d) zeroT then Err (* ZeroDivisionError *) else
-         do new_shape <- round_shape (div OP (mul OP twoT (snd r)) (snd d), div OP (mul OP twoT (fst r)) (fst d));
+         do new_shape <- round_shape_kw (div OP (mul OP twoT (snd r)) (snd d), div OP (mul OP twoT (fst r)) (fst d)) r d;
          do shape <- validate_shape shape new_shape;
          Ok (Some shape, radius)
        | _, _ =>
